@@ -116,6 +116,8 @@ def do_case(ctx, kind, n, mode, param, cases_mono, cases_seq):
     else:
         cases_seq.append((f'({n}, {coq.lst([coq.blit(b) for b in param]) if param else "(@nil bool)"})', out, (kind, n, mode, list(param))))
     why = oracle(ctx, kind, n, mode, param, final, log)
+    if reason == 'max_steps':
+        why = f'the pass proposed more than {(n + 2) * (n + 3) + 20} candidates (proved bound (n+1)(n+2)): it does not terminate'
     if why:
         ctx.violation(f'binary-{kind}-{mode}', f'{kind} n={n} {mode} {list(param)}: {why}',
                       {'kind': kind, 'n': n, 'mode': mode, 'param': list(param)})
@@ -141,7 +143,7 @@ def run_impl_mode(ctx, kind, n, mode, param):
     else:
         def interesting(c):
             return param[k['k']] if k['k'] < len(param) else False
-    steps, final, reason = run_ref(pass_, p, interesting, ctx.tmp, observe=observe)
+    steps, final, reason = run_ref(pass_, p, interesting, ctx.tmp, observe=observe, max_steps=(n + 2) * (n + 3) + 20)   # above the proved bound
     log = [(s.state_repr[0], s.state_repr[1], s.state_repr[2], s.accepted, count_instances(kind, s.before)) for s in steps]
     return present(kind, final), log, reason
 
